@@ -39,12 +39,16 @@ Derive(how)        == UNCHANGED <<num, den, ord>> /\ depth' = depth + 1
 Normalize          == \E s \in 1..64 : /\ s * s * den * den = Norm2(num)
                                         /\ LET r == Red(num, s * den) IN num' = r[1] /\ den' = r[2]
                                         /\ UNCHANGED ord /\ depth' = depth + 1
+(* the components of the live object overwritten in place through its array interface (q[:] = v): the register IS v from *)
+(* then on, for every later reader (components, conjugate, product matrices, products)                                  *)
+Overwrite(v)       == num' = v /\ den' = 1 /\ UNCHANGED ord /\ depth' = depth + 1
 (* read the components (w, x, y, z) of the register: no change *)
 Observe            == UNCHANGED <<num, den, ord>> /\ depth' = depth + 1
 
 Next == \/ Observe
         \/ \E h \in DeriveHow : Derive(h)
         \/ Normalize
+        \/ \E v \in Gen : Overwrite(v)
         \/ \E r \in MulRoutes, v \in Gen : MulRight(r, v) \/ MulLeft(r, v)
         \/ \E r \in ConjRoutes : Conjugate(r)
         \/ Invert
